@@ -26,14 +26,14 @@ NA = {
 
 CHECKS = {
  'C06': dict(
-  text='Seeded search over (a) simulator-chosen iteration orders of every set the checkers build (order seam), (b) presentations of one abstract input - state bijections onto other types, shuffled/omitted/duplicated collections, atom renamings, unreachable padding - and (c) real PYTHONHASHSEED values in fresh unpatched interpreters; the oracle is the library\'s own answer under the canonical presentation mapped through the renaming. Seam-only divergences are reported only after real unpatched executions disagree. Sampling, not proof.',
+  text='Seeded search over (a) simulator-chosen iteration orders of every set the checkers build (order seam), (b) presentations of one abstract input - state bijections onto other types, equal-but-distinct state objects per use, shuffled/omitted/duplicated collections in other container types, atom renamings, unreachable padding, initial states - and (c) real PYTHONHASHSEED values in fresh unpatched interpreters; the oracle is the library\'s own answer under the canonical presentation mapped through the renaming. Seam-only divergences are reported only after real unpatched executions disagree. Sampling, not proof.',
   ref='DESIGN.md 3.1, 5',
-  note='Trusted: the harness\' presentation mapping and un-mapping; SimSet explores a superset of CPython\'s iteration orders and is therefore only a candidate generator; known finding KF1 is attributed through its trigger predicate (known_findings.txt). Bounds: <=5 states, depth <=4, <=3 temporal operators.',
+  note='Trusted: the harness\' presentation mapping and un-mapping; SimSet explores a superset of CPython\'s iteration orders and is therefore only a candidate generator; known finding KF1 is attributed through its trigger predicate (known_findings.txt). Bounds: <=8 states for CTL, <=6 for CTL*, <=5 for LTL (plus <=2 padding states), depth <=5 (CTL) / <=3, <=3 temporal operators for LTL/CTL*.',
   tech=TECH + ' (scheduler-owned set iteration order + presentation perturbation + PYTHONHASHSEED sweep in fresh interpreters, differential against the canonical execution)'),
  'C07': dict(
-  text='Seeded search over call histories on a shared pool of structures, formula objects/texts, fairness lists and parsers, in a fault-free and a fault-injecting configuration (calls cut short by SimAbort/MemoryError/RecursionError at chosen line events inside repository code); after every operation deep snapshots of every argument are compared and every un-faulted call is compared with the same call in a pristine forked process. Sampling, not proof.',
+  text='Seeded search over call histories on a shared pool of structures, formula objects/texts, fairness lists and parsers, in three configurations: fault-free, fault-injecting (calls cut short by SimAbort/MemoryError/RecursionError at chosen line events inside repository code) and interleaved (a complete second call executed at a chosen line event inside the first); histories include in-place edits of a structure by the caller and formulas whose atoms are named like names the library generated internally (name feedback); after every operation deep snapshots of every argument are compared and every un-faulted call is compared with the same call in a pristine forked process. Sampling, not proof.',
   ref='DESIGN.md 3.2',
-  note='Trusted: snapshot walker, fork isolation (the pristine child has imported but never called the library). Faults land on Python line events of repository frames only. Bounds: <=4 states, <=40 operations, <=2 temporal operators for LTL/CTL*.',
+  note='Trusted: snapshot walker, fork isolation (the pristine child has imported but never called the library). Faults land on Python line events of repository frames only. Bounds: <=6 states per structure plus an optional 32-45-state structure queried through CTL only, <=~80 operations, <=2 temporal operators for LTL/CTL*.',
   tech=TECH + ' (seeded call histories with line-event abort/exhaustion faults, snapshot invariants and a pristine-process reference)'),
  'C16': dict(
   text='Seeded search over create/combine/drop/GC histories of OBDDs with the collector driven by the simulator (between and inside operations, deferred reclamation through reference cycles, allocation churn); canonicity, unique-table and terminal invariants checked after every step against a truth-table model. Sampling, not proof.',
